@@ -1,5 +1,6 @@
-import Deb822Verif.Props.C20Ext
+import Deb822Verif.Props.C20Blank
 import Deb822Verif.Lemmas.DebLossyRange
+import Deb822Verif.Props.C08More
 /-!
 # C20Apt — print / re-parse stability of the apt Release / Sources / Packages stanzas on PARSE OUTPUTS
 
@@ -27,7 +28,7 @@ set_option linter.unusedSimpArgs false
 set_option linter.unusedVariables false
 namespace Deb822Verif.Props.C20Apt
 open Deb822Verif Deb Deb.Lossy Spec Derive TypedDoc Rel
-open Deb822Verif.Props.C20 Deb822Verif.Props.C20Ext
+open Deb822Verif.Props.C20 Deb822Verif.Props.C20Ext Deb822Verif.Props.C20Blank
 
 /-! ## per-field conditions relative to a predicate on the texts the reader can show -/
 
@@ -144,6 +145,29 @@ theorem C20_roundtrip_lossyPara (spec : Spec) (hn : (specKeys spec).Nodup)
       simp only [List.mem_singleton] at hq
       subst hq
       exact ⟨paraOf_ne_nil spec v' hg hm, h3⟩
+
+/-- **range of the lossy reader** (Lemmas/DebLossyRange.lean): whatever text `lossy::Deb822::from_str`
+    accepts, every paragraph has a field, every name is a valid key, and every value splits at LF into
+    lines without terminators that do not start with a blank nor — after the first — with `#` -/
+theorem C20_lossy_range (s : Str) (D : Lossy.Doc) (h : Lossy.read s = .ok D) :
+    ∀ p ∈ D, p ≠ [] ∧ ∀ f ∈ p, ValidKey f.1 ∧ LossyLines (Text.splitOn '\n' f.2) :=
+  read_range s D h
+
+/-- **lossy round trip on the whole range** (beyond `CanonD`, the domain of C08): for every accepted text,
+    the printed document reads back as the same document -/
+theorem C20_lossy_print_read (s : Str) (D : Lossy.Doc) (h : Lossy.read s = .ok D) :
+    Lossy.read (printDoc D) = .ok D := read_print_read s D h
+
+/-- the range is strictly wider than the C08 domain: `K: a` + whitespace-only line + ` b` -/
+example : Lossy.read (c!"K: a\n \n b\n") = .ok [[(c!"K", c!"a\n\nb")]]
+    ∧ ¬ CanonD [[(c!"K", c!"a\n\nb")]] ∧ LossyD [[(c!"K", c!"a\n\nb")]] := by
+  refine ⟨by decide +kernel, ?_, read_range _ _ (by decide +kernel : Lossy.read (c!"K: a\n \n b\n") = .ok _)⟩
+  intro hc
+  have h2 := (C08.canonDocB_iff _).2 (by
+    intro p hp
+    exact ⟨(hc p hp).1, fun f hf => (hc p hp).2 f hf⟩)
+  have : canonDocB [[(c!"K", c!"a\n\nb")]] = false := by decide +kernel
+  rw [this] at h2; cases h2
 
 /-! ## the codecs of the three structs on `LossyText` -/
 
@@ -525,5 +549,347 @@ example : ¬ CanonD [paraOf (spec1 (c!"apt.Package")) messyVal]
 
 example : Shipped E1 (c!"apt.Release") (spec1 (c!"apt.Release")) ∧ Shipped E1 (c!"apt.Source") (spec1 (c!"apt.Source")) :=
   ⟨shipped1 _ (by decide +kernel), shipped1 _ (by decide +kernel)⟩
+
+/-! ## apt sources list: the `Signed-By` key block (hypothesis `hSigned` removed) -/
+
+/-- the spec as the lossless reader sees the printed values: an empty first line is not shown -/
+def viewSpec (spec : Spec) : Spec := spec.map fun f => { f with ser := fun y => C08.dropLead (f.ser y) }
+
+theorem fromFields_viewSpec (g : Str → Option Str) (spec : Spec) :
+    fromFields g (viewSpec spec) = fromFields g spec := by
+  induction spec with
+  | nil => rfl
+  | cons f fs ih =>
+    simp only [viewSpec, List.map_cons, fromFields] at ih ⊢
+    rw [ih]
+    rfl
+
+theorem toFields_viewSpec (spec : Spec) (v : SV) :
+    toFields (viewSpec spec) v = (toFields spec v).map C08.viewF := by
+  induction spec generalizing v with
+  | nil => cases v <;> rfl
+  | cons f fs ih =>
+    cases v with
+    | nil => rfl
+    | cons x xs =>
+      cases x with
+      | none => simpa [viewSpec, toFields] using ih xs
+      | some y =>
+        have := ih xs
+        simp only [viewSpec, List.map_cons, toFields] at this ⊢
+        rw [this]
+        rfl
+
+theorem specKeys_viewSpec (spec : Spec) : specKeys (viewSpec spec) = specKeys spec := by
+  simp [specKeys, viewSpec, List.map_map, Function.comp_def]
+
+theorem wellFormed_viewSpec (spec : Spec) (v : SV) (h : WellFormed spec v) : WellFormed (viewSpec spec) v := by
+  induction spec generalizing v with
+  | nil => cases v <;> simpa [viewSpec, WellFormed] using h
+  | cons f fs ih =>
+    cases v with
+    | nil => simp [WellFormed] at h
+    | cons x xs =>
+      simp only [WellFormed] at h
+      simp only [viewSpec, List.map_cons, WellFormed]
+      exact ⟨h.1, ih xs h.2⟩
+
+/-- reading back what the lossless reader shows of the printed paragraph -/
+theorem from_view (spec : Spec) (v : SV) (hn : (specKeys spec).Nodup) (hw : WellFormed spec v)
+    (hc : CodecsRoundTrip (viewSpec spec) v) :
+    fromFields (lookupFirst ((paraOf spec v).map C08.viewF)) spec = .ok v := by
+  have := from_toFields (viewSpec spec) v ⟨by rw [specKeys_viewSpec]; exact hn, wellFormed_viewSpec spec v hw, hc⟩
+  rw [fromFields_viewSpec, toFields_viewSpec] at this
+  exact this
+
+theorem reposLoop_ok_view (R : Spec) (l : List SV) (ps : List DNode)
+    (hps : ps.map items = l.map fun r => (paraOf R r).map C08.viewF)
+    (hg : ∀ r ∈ l, (specKeys R).Nodup ∧ WellFormed R r ∧ CodecsRoundTrip (viewSpec R) r) :
+    reposLoop R ps = .ok l := by
+  induction l generalizing ps with
+  | nil => simp at hps; subst hps; rfl
+  | cons r rs ih =>
+    cases ps with
+    | nil => simp at hps
+    | cons p ps' =>
+      simp only [List.map_cons, List.cons.injEq] at hps
+      obtain ⟨g1, g2, g3⟩ := hg r (by simp)
+      have hp : fromLL R p = .ok r := by
+        unfold fromLL
+        rw [get_eq_lookup, hps.1, from_view R r g1 g2 g3]; rfl
+      simp only [reposLoop, hp, ih ps' hps.2 (fun x hx => hg x (by simp [hx]))]
+
+/-- stability for a list of repositories whose printed paragraphs are canonical — values with an empty
+    first line (a key block) allowed: the lossless reader shows them without it -/
+theorem C20_stable_repos_view (R : Spec) (l : List SV)
+    (hg : ∀ r ∈ l, (specKeys R).Nodup ∧ WellFormed R r ∧ CodecsRoundTrip (viewSpec R) r)
+    (hc : CanonD (l.map (paraOf R))) :
+    TypedDoc.parse (.repos R) (TypedDoc.print (.repos R) (.repos l)) = .ok (.repos l) := by
+  obtain ⟨t, ht, hd⟩ := C08.C08_lossless_view (l.map (paraOf R)) (fun p hp => (hc p hp).2)
+  rw [(C08.nonEmptyParas_eq_self _).2 (fun p hp => (hc p hp).1)] at hd
+  have hps : llParas (Lossy.printDoc (l.map (paraOf R))) = .ok (paragraphs t) := by simp [llParas, ht]
+  have hit : (paragraphs t).map items = l.map fun r => (paraOf R r).map C08.viewF := by
+    have : docItems t = (paragraphs t).map items := rfl
+    rw [← this, hd, List.map_map]; rfl
+  simp only [TypedDoc.parse, TypedDoc.print, docOf, parseRepos, hps, reposLoop_ok_view R l _ hit hg]
+
+/- `kSignedBy`, `hashBlock`, `signedHashField` (the trigger of finding F-C20-10, shared with the driver) are
+   defined in Props/C20Blank.lean -/
+
+theorem signedHash_false (e : Str × Str) (h : signedHashField e = false) (hk : e.1 = kSignedBy) :
+    hashBlock.isPrefixOf e.2 = false := by
+  unfold signedHashField at h
+  rw [hk] at h
+  simpa using h
+
+theorem dropLead_goodText (v : Str) (h : GoodText v) : C08.dropLead v = v := by
+  cases v with
+  | nil => rfl
+  | cons c r =>
+    by_cases hc : c = '\n'
+    · subst hc
+      have := h.2 (by simp [Text.splitOn])
+      simp at this
+    · simp [C08.dropLead, hc]
+
+theorem goodText_head (t : Str) (hg : GoodText t) : t.head? ≠ some '\n' := by
+  intro e
+  cases t with
+  | nil => simp at e
+  | cons c cs =>
+    simp only [List.head?_cons, Option.some.injEq] at e
+    subst e
+    have := hg.2 (by simp [Text.splitOn])
+    simp at this
+
+/-- a key block read from good text prints canonically unless its first line starts with `#` -/
+theorem canon_block (t : Str) (hg : GoodText t) (hnl : '\n' ∈ t) (hh : t.head? ≠ some '#') :
+    CanonLines (Text.splitOn '\n' ('\n' :: t)) := by
+  have hs : Text.splitOn '\n' ('\n' :: t) = [] :: Text.splitOn '\n' t := by simp [Text.splitOn]
+  rw [hs]
+  cases t with
+  | nil => simp at hnl
+  | cons c cs =>
+    have hc : c ≠ '\n' := by
+      intro e; exact goodText_head _ hg (by simp [e])
+    obtain ⟨a, r, hsp⟩ : ∃ a r, Text.splitOn '\n' (c :: cs) = (c :: a) :: r := by
+      simp only [Text.splitOn, hc, ↓reduceIte]
+      cases Text.splitOn '\n' cs with
+      | nil => exact ⟨[], [], rfl⟩
+      | cons l ls => exact ⟨l, ls, rfl⟩
+    have hcan := hg.1
+    rw [hsp] at hcan ⊢
+    refine ⟨by simp, ?_, by intro d hd; simp at hd, ?_⟩
+    · intro l hl
+      simp only [List.mem_cons] at hl
+      rcases hl with rfl | hl
+      · intro x hx; simp at hx
+      · exact hcan.noNl l (by simpa using hl)
+    · intro l hl
+      simp only [List.tail_cons, List.mem_cons] at hl
+      rcases hl with rfl | hl
+      · refine ⟨hcan.noNl _ (by simp), c, a, rfl, hcan.first c (by simp), ?_⟩
+        intro e; apply hh; simp [e]
+      · exact hcan.tailOk l (by simpa using hl)
+
+/-- one repository paragraph read through the lossless reader: well-formed, re-readable from the lossless
+    view of its printed form, printed canonically — provided a key block does not start with `#` -/
+theorem fromFields_view (g : Str → Option Str) (spec : Spec) (v : SV)
+    (hg : ∀ k t, g k = some t → GoodText t)
+    (hs : ∀ f ∈ spec, FieldOKx (fun _ => False) (· = kSignedBy) f)
+    (hsig : ∀ f ∈ spec, f.key = kSignedBy → f.ser = sigCodec.ser ∧ f.de = sigCodec.de)
+    (h : fromFields g spec = .ok v)
+    (hhash : ∀ e ∈ toFields spec v, e.1 = kSignedBy → hashBlock.isPrefixOf e.2 = false) :
+    WellFormed spec v ∧ CodecsRoundTrip spec v ∧ CodecsRoundTrip (viewSpec spec) v
+    ∧ ∀ e ∈ toFields spec v, ValidKey e.1 ∧ CanonLines (Text.splitOn '\n' e.2) := by
+  induction spec generalizing v with
+  | nil => simp [fromFields] at h; subst h; simp [WellFormed, CodecsRoundTrip, toFields, viewSpec]
+  | cons f fs ih =>
+    simp only [fromFields] at h
+    cases hr : readField g f with
+    | error e => rw [hr] at h; simp at h
+    | ok x =>
+      rw [hr] at h
+      simp only at h
+      cases hf : fromFields g fs with
+      | error e => rw [hf] at h; simp at h
+      | ok xs =>
+        rw [hf] at h
+        simp only [Except.ok.injEq] at h
+        subst h
+        have hfo := hs f (by simp)
+        unfold readField at hr
+        cases hgk : g f.key with
+        | none =>
+          rw [hgk] at hr
+          cases ho : f.optional with
+          | false => simp [ho] at hr
+          | true =>
+            simp [ho] at hr; subst hr
+            obtain ⟨i1, i2, i3, i4⟩ := ih xs (fun f' hf' => hs f' (by simp [hf']))
+              (fun f' hf' => hsig f' (by simp [hf'])) hf (fun e he => hhash e (by simpa [toFields] using he))
+            exact ⟨⟨by simp [ho], i1⟩, i2, by simpa [viewSpec, CodecsRoundTrip] using i3, i4⟩
+        | some t =>
+          rw [hgk] at hr
+          cases hd : f.de t with
+          | error e => simp [hd] at hr
+          | ok y =>
+            simp [hd] at hr; subst hr
+            obtain ⟨i1, i2, i3, i4⟩ := ih xs (fun f' hf' => hs f' (by simp [hf']))
+              (fun f' hf' => hsig f' (by simp [hf'])) hf
+              (fun e he => hhash e (by simp only [toFields, List.mem_cons]; exact Or.inr he))
+            have hgt := hg _ _ hgk
+            have hst : f.de (f.ser y) = .ok y := hfo.stable (fun x => x) t y hgt hd
+            -- the view of the printed value re-reads, and the printed value is canonical
+            have hview : f.de (C08.dropLead (f.ser y)) = .ok y ∧ CanonLines (Text.splitOn '\n' (f.ser y)) := by
+              by_cases hk : f.key = kSignedBy
+              · obtain ⟨hser, hde⟩ := hsig f (by simp) hk
+                have hy : y = .sig (Codec.Signature.parse t) := by
+                  rw [hde] at hd; exact (Except.ok.inj hd).symm
+                by_cases hnl : '\n' ∈ t
+                · have hp := (sig_print t).2 hnl (goodText_head t hgt)
+                  rw [hser, hy, hp]
+                  refine ⟨by simpa [C08.dropLead, ← hy] using hd, canon_block t hgt hnl ?_⟩
+                  have := hhash (f.key, f.ser y) (by simp [toFields]) hk
+                  rw [hser, hy, hp] at this
+                  intro e
+                  cases t with
+                  | nil => simp at e
+                  | cons c cs =>
+                    simp only [List.head?_cons, Option.some.injEq] at e
+                    subst e
+                    simp [hashBlock, List.isPrefixOf] at this
+                · have hp := (sig_print t).1 hnl
+                  rw [hser, hy, hp, dropLead_goodText t hgt]
+                  exact ⟨by rw [← hy]; exact hd, hgt.1⟩
+              · have hcg := hfo.canon hk t y hgt hd
+                rw [dropLead_goodText _ hcg]
+                exact ⟨hst, hcg.1⟩
+            refine ⟨⟨by simp, i1⟩, ⟨hst, i2⟩, ?_, ?_⟩
+            · simp only [viewSpec, List.map_cons, CodecsRoundTrip]
+              exact ⟨hview.1, i3⟩
+            · intro e he
+              simp only [toFields, List.mem_cons] at he
+              rcases he with rfl | he
+              · exact ⟨hfo.validKey, hview.2⟩
+              · exact i4 e he
+
+/-- **APT sources list, any spec whose `Signed-By` field is the `Signature` codec**: whatever text parsed
+    to the list `l` — key blocks included — printing it gives a text that parses to `l` again.  The only
+    exception is finding F-C20-10: `hSignedHash` (no printed `Signed-By` value starts with LF `#`) -/
+theorem C20_roundtrip_repos_view (R : Spec) (hn : (specKeys R).Nodup)
+    (hs : ∀ f ∈ R, FieldOKx (fun _ => False) (· = kSignedBy) f) (hm : ∃ f ∈ R, f.optional = false)
+    (hsig : ∀ f ∈ R, f.key = kSignedBy → f.ser = sigCodec.ser ∧ f.de = sigCodec.de)
+    (s : Str) (l : List SV) (h : TypedDoc.parse (.repos R) s = .ok (.repos l))
+    (hSignedHash : ∀ r ∈ l, ∀ e ∈ paraOf R r, e.1 = kSignedBy → hashBlock.isPrefixOf e.2 = false) :
+    TypedDoc.parse (.repos R) (TypedDoc.print (.repos R) (.repos l)) = .ok (.repos l) := by
+  simp only [TypedDoc.parse, parseRepos] at h
+  cases hp : llParas s with
+  | error e => rw [hp] at h; simp at h
+  | ok ps =>
+    rw [hp] at h
+    simp only at h
+    cases hr : reposLoop R ps with
+    | error e => rw [hr] at h; simp at h
+    | ok rs =>
+      rw [hr] at h
+      simp only [Except.ok.injEq, TV.repos.injEq] at h
+      subst h
+      have hall := reposLoop_ok_all R ps rs hr
+      have hgood := llParas_good s ps hp
+      have hvals : ∀ r ∈ rs, WellFormed R r ∧ CodecsRoundTrip R r ∧ CodecsRoundTrip (viewSpec R) r
+          ∧ ∀ e ∈ paraOf R r, ValidKey e.1 ∧ CanonLines (Text.splitOn '\n' e.2) := by
+        intro r hr'
+        obtain ⟨p, hpm, hv⟩ := hall r hr'
+        have hff : fromFields (Deb.get p) R = .ok r := by
+          unfold fromLL liftMsg at hv
+          cases hf : fromFields (Deb.get p) R with
+          | ok x => rw [hf] at hv; simp at hv; rw [hv]
+          | error e => rw [hf] at hv; simp at hv
+        exact fromFields_view _ R r (get_goodText p (hgood p hpm)) hs hsig hff (hSignedHash r hr')
+      refine C20_stable_repos_view R rs (fun r hr' => ⟨hn, (hvals r hr').1, (hvals r hr').2.2.1⟩) ?_
+      intro q hq
+      simp only [List.mem_map] at hq
+      obtain ⟨r, hr', rfl⟩ := hq
+      exact ⟨paraOf_ne_nil R r ⟨hn, (hvals r hr').1, (hvals r hr').2.1⟩ hm, (hvals r hr').2.2.2⟩
+
+theorem tf_repos_sig : ∀ f ∈ rowFields (c!"aptsources.Repository"), f.key = kSignedBy →
+    (f.ser, f.de, f.ty) = (c!"", c!"", c!"Signature") := by decide +kernel
+
+/-- **deb822 sources (`.sources`), shipped struct, `hSigned` removed.**  Hypotheses: `ExtOK` and the
+    F-C20-10 exception (a key block does not start with `#`).  A repository with an embedded key block —
+    the crate's own documentation example — is now inside the theorem. -/
+theorem C20_roundtrip_repos_shipped_keyblock (E : ExtCodecs) (hE : ExtOK E) (R : Spec)
+    (hS : Shipped E (c!"aptsources.Repository") R) (s : Str) (l : List SV)
+    (h : TypedDoc.parse (.repos R) s = .ok (.repos l))
+    (hSignedHash : ∀ r ∈ l, ∀ e ∈ paraOf R r, signedHashField e = false) :
+    TypedDoc.parse (.repos R) (TypedDoc.print (.repos R) (.repos l)) = .ok (.repos l) := by
+  obtain ⟨n, f, sig, rows⟩ := shipped_facts E hE _ R hS
+  obtain ⟨t1, t2⟩ := tf_repos
+  have key : ∀ f ∈ R, f.key ∈ (rowSig (c!"aptsources.Repository")).map (·.1) := fun f hf => by
+    rw [← sig]; exact key_mem_sig R f hf
+  refine C20_roundtrip_repos_view R n ?_ (any_mand R (by rw [sig]; exact t1)) ?_ s l h
+    (fun r hr e he hk => signedHash_false e (hSignedHash r hr e he) hk)
+  · intro g hg
+    exact fieldOKx_mono _ _ _ _ g (f g hg) (fun hx => (t2 _ (key g hg)).1 hx) (fun hx => (t2 _ (key g hg)).2 hx)
+  · intro g hg hk
+    obtain ⟨fr, hfr, hspec⟩ := rows g hg
+    obtain ⟨k1, _⟩ := fieldSpecE_key E fr g hspec
+    have htr := tf_repos_sig fr hfr (by rw [← k1]; exact hk)
+    have hkind : kindOf fr = some (.modelled sigCodec) := by
+      unfold kindOf; rw [htr]; rfl
+    rw [fieldSpecE_modelled E fr g sigCodec hspec hkind]
+    exact ⟨rfl, rfl⟩
+
+/-- the same under `ExtOK3` (relations and versions modelled) -/
+theorem C20_roundtrip_repos_shipped_keyblock_rv (E : ExtCodecs) (hrv : ModelledRV E) (h3 : ExtOK3 E) (R : Spec)
+    (hS : Shipped E (c!"aptsources.Repository") R) (s : Str) (l : List SV)
+    (h : TypedDoc.parse (.repos R) s = .ok (.repos l))
+    (hSignedHash : ∀ r ∈ l, ∀ e ∈ paraOf R r, signedHashField e = false) :
+    TypedDoc.parse (.repos R) (TypedDoc.print (.repos R) (.repos l)) = .ok (.repos l) :=
+  C20_roundtrip_repos_shipped_keyblock E (C20_extOK_of_rv E hrv h3) R hS s l h hSignedHash
+
+/-! ### the key block inside the theorem, and the witness that `hSignedHash` is needed -/
+
+abbrev reposKind : DocKind := .repos (spec1 (c!"aptsources.Repository"))
+
+/-- a repository with an embedded key block (layout of the crate's documentation example) -/
+def keyBlockDoc : Str :=
+  c!"Types: deb\nURIs: https://example.org/debian\nSuites: stable\nComponents: main\nArchitectures: amd64\nSigned-By:\n -----BEGIN PGP PUBLIC KEY BLOCK-----\n .\n mQENBF\n -----END PGP PUBLIC KEY BLOCK-----\n"
+
+def keyBlockVal : List SV := match TypedDoc.parse reposKind keyBlockDoc with | .ok (.repos l) => l | _ => []
+
+theorem keyBlockDoc_parses : TypedDoc.parse reposKind keyBlockDoc = .ok (.repos keyBlockVal) := by decide +kernel
+
+/-- accepted, printed with the block on continuation lines, and read back (the old hypothesis `hSigned`
+    is FALSE here: the printed `Signed-By` value starts with an empty line) -/
+example : keyBlockVal.length = 1
+    ∧ ¬ (∀ r ∈ keyBlockVal, ∀ e ∈ paraOf (spec1 (c!"aptsources.Repository")) r, e.1 = c!"Signed-By" → GoodText e.2)
+    ∧ TypedDoc.parse reposKind (TypedDoc.print reposKind (.repos keyBlockVal)) = .ok (.repos keyBlockVal) := by
+  refine ⟨by decide +kernel, by decide +kernel, ?_⟩
+  exact C20_roundtrip_repos_shipped_keyblock_rv E1 E1_rv E1_ok3 _ (shipped1 _ (by decide +kernel)) keyBlockDoc _
+    keyBlockDoc_parses (by decide +kernel)
+
+def hashBlockDoc : Str :=
+  c!"Types: deb\nURIs: http://a.b/\nSuites: s\nComponents: c\nArchitectures: amd64\nSigned-By: #a\n b\n"
+
+def hashBlockVal : List SV := match TypedDoc.parse reposKind hashBlockDoc with | .ok (.repos l) => l | _ => []
+
+/-- **witness of F-C20-10** (`hSignedHash` cannot be dropped): `Signed-By: #a` + ` b` is accepted as the
+    key block `#a\nb`; it prints as `Signed-By:` + ` #a` + ` b`, where ` #a` is a comment line; the printed
+    text parses to a DIFFERENT value (the key path `b`) -/
+theorem C20_signed_hash_witness :
+    TypedDoc.parse reposKind hashBlockDoc = .ok (.repos hashBlockVal)
+    ∧ (∀ r ∈ hashBlockVal, valueAt kSignedBy (spec1 (c!"aptsources.Repository")) r
+        = some (.sig (.keyBlock (c!"#a\nb"))))
+    ∧ TypedDoc.print reposKind (.repos hashBlockVal)
+        = c!"Types: deb\nURIs: http://a.b/\nSuites: s\nComponents: c\nArchitectures: amd64\nSigned-By: \n #a\n b\n"
+    ∧ (∃ l', TypedDoc.parse reposKind (TypedDoc.print reposKind (.repos hashBlockVal)) = .ok (.repos l')
+        ∧ l' ≠ hashBlockVal
+        ∧ ∀ r ∈ l', valueAt kSignedBy (spec1 (c!"aptsources.Repository")) r = some (.sig (.keyPath (c!"b"))))
+    ∧ ¬ (∀ r ∈ hashBlockVal, ∀ e ∈ paraOf (spec1 (c!"aptsources.Repository")) r, signedHashField e = false) := by
+  refine ⟨by decide +kernel, by decide +kernel, by decide +kernel, ?_, by decide +kernel⟩
+  refine ⟨match TypedDoc.parse reposKind (TypedDoc.print reposKind (.repos hashBlockVal)) with
+    | .ok (.repos l) => l | _ => [], by decide +kernel, by decide +kernel, by decide +kernel⟩
 
 end Deb822Verif.Props.C20Apt
